@@ -260,11 +260,12 @@ enum Kind {
     Cast,
     Func,
     Case,
+    AsEnum,
 }
 
 fn kinds(d: Dialect) -> Vec<Kind> {
     let mut v: Vec<Kind> = ops_for(d).into_iter().map(Kind::Bin).collect();
-    v.extend([Kind::Not, Kind::Between(false), Kind::Between(true), Kind::LikePat(false), Kind::LikePat(true), Kind::In(false), Kind::In(true), Kind::InSub, Kind::Cast, Kind::Func, Kind::Case]);
+    v.extend([Kind::Not, Kind::Between(false), Kind::Between(true), Kind::LikePat(false), Kind::LikePat(true), Kind::In(false), Kind::In(true), Kind::InSub, Kind::Cast, Kind::Func, Kind::Case, Kind::AsEnum]);
     v
 }
 
@@ -300,6 +301,7 @@ fn make(d: Dialect, k: &Kind, pos: usize, inner: E) -> Option<E> {
         Kind::Cast => E::Cast(Box::new(operand(0)), "integer".into()),
         Kind::Func => E::Func(F::Coalesce, vec![operand(0), operand(1)]),
         Kind::Case => E::Case(vec![(operand(0), operand(1))], Some(Box::new(E::Int(0)))),
+        Kind::AsEnum => E::AsEnum(Box::new(operand(0))),
     })
 }
 
@@ -319,7 +321,7 @@ fn matrix(d: Dialect) -> Vec<Case> {
     out
 }
 
-fn case_strategy(depth: u32) -> impl Strategy<Value = Case> {
+pub fn case_strategy(depth: u32) -> impl Strategy<Value = Case> {
     prop_oneof![
         expr(Dialect::Mysql, depth, false).prop_map(|e| Case { dialect: Dialect::Mysql, e }),
         expr(Dialect::Postgres, depth, false).prop_map(|e| Case { dialect: Dialect::Postgres, e }),
